@@ -28,14 +28,23 @@ RULE = (
     "id and no other keys; every (probe, index) pair exactly once; SHA-256 of every input file "
     "unchanged; the returned model's spike arrays equal the written files. Non-trivial: >=2 "
     "probes with a cross-probe time tie, or >=3 probes, or unequal spike counts, or a TSV present "
-    "in some probes only.")
+    "in some probes only. In half of the cases the same probe directories are merged a second time "
+    "in the same process (same or reversed order) and verified again.")
 ASSUMPTIONS = ['merging requires amplitudes.npy, pc_feature_ind.npy, template_feature_ind.npy and '
                'spike_clusters.npy in every probe (KiloSort always writes them)']
 
 
+@st.composite
+def _case(draw):
+    c = draw(G.merge_case())
+    # a second merge in the same process (same probe directories, same or reversed order)
+    c['again'] = draw(st.sampled_from([None, None, 'same', 'reversed']))
+    return c
+
+
 def drivers(tier):
     th = tier == 'thorough'
-    return [dict(kind='hyp', name='merges', strategy=G.merge_case(), examples=60000 if th else 6000)]
+    return [dict(kind='hyp', name='merges', strategy=_case(), examples=60000 if th else 6000)]
 
 
 def _read_simple(path):
@@ -64,14 +73,10 @@ def infer_offsets(order, Ts, merged, attr, what):
     return [offs[k] for k in range(len(Ts))]
 
 
-def check(case):
-    info = {}
-    with env.scratch() as d:
-        Ts = G.build_probes(case, d)
-        before = [D.sha_dir(T.dir) for T in Ts]
-        out = d / 'merged'
-        merger, model = G.run_merge(Ts, out, must_return)
-        try:
+def _verify(Ts, out, model, info):
+    """All C11 clauses for one merge of the probe list Ts into out."""
+    if True:
+        if True:
             order = G.expected_order(Ts)
             n = len(order)
             st_ = np.load(out / 'spike_times.npy')
@@ -147,15 +152,31 @@ def check(case):
             same_array('model.spike_samples', model.spike_samples, st_, key='model-arrays',
                        dtype=False)
             same_array('model.amplitudes', model.amplitudes, amp, key='model-arrays', dtype=False)
-        finally:
+
+
+def check(case):
+    info = {}
+    with env.scratch() as d:
+        Ts = G.build_probes(case, d)
+        before = [D.sha_dir(T.dir) for T in Ts]
+        runs = [(Ts, d / 'merged')]
+        if case.get('again') == 'same':
+            runs.append((Ts, d / 'merged2'))
+        elif case.get('again') == 'reversed':
+            runs.append((Ts[::-1], d / 'merged2'))
+        for Tl, out in runs:
+            merger, model = G.run_merge(Tl, out, must_return)
             try:
-                model.close()
-            except Exception:
-                pass
-        after = [D.sha_dir(T.dir) for T in Ts]
-        for k, (b, a) in enumerate(zip(before, after)):
-            require(a == b, 'input directory of probe %d changed' % k, key='inputs-changed',
-                    observed=sorted(set(a.items()) ^ set(b.items())))
+                _verify(Tl, out, model, info)
+            finally:
+                try:
+                    model.close()
+                except Exception:
+                    pass
+            after = [D.sha_dir(T.dir) for T in Ts]
+            for k, (b, a) in enumerate(zip(before, after)):
+                require(a == b, 'input directory of probe %d changed' % k, key='inputs-changed',
+                        observed=sorted(set(a.items()) ^ set(b.items())))
     times = [set(int(x) for x in T.samples) for T in Ts]
     info['cross_tie'] = any(times[i] & times[j] for i in range(len(Ts))
                             for j in range(i + 1, len(Ts)))
@@ -179,6 +200,8 @@ def classify(case, info):
         nt = True
     if any(p['curation'] for p in ps):
         labels.append('curated-probe')
+    if case.get('again'):
+        labels.append('second-merge-in-process:' + case['again'])
     if len(set(p['tmpl_dtype'] for p in ps)) > 1 or len(set(p['clu_dtype'] for p in ps)) > 1:
         labels.append('mixed-id-dtypes')
     if len(set(p['time_dtype'] for p in ps)) > 1:
